@@ -1259,7 +1259,7 @@ impl UntypedExpr {
                     let x = x.type_check(top_level_defs, env, fns, defs)?;
                     let mut y = y.type_check(top_level_defs, env, fns, defs)?;
                     expect_num_type(&x.ty, x.meta)?;
-                    check_or_constrain_unsigned(&mut y, UnsignedNumType::U8)?;
+                    check_type(&mut y, &Type::Unsigned(UnsignedNumType::U8))?;
                     (ExprEnum::Op(*op, Box::new(x.clone()), Box::new(y)), x.ty)
                 }
             },
@@ -2821,16 +2821,20 @@ pub(crate) fn constrain_type(expr: &mut TypedExpr, expected: &Type) -> Result<()
             }
         }
         (ExprEnum::Identifier(_), Type::Array(elem_ty, _) | Type::ArrayConst(elem_ty, _)) => {
+            let ty_before = expr.ty.clone();
             if let Type::Array(actual, _) | Type::ArrayConst(actual, _) = &mut expr.ty {
                 overwrite_ty_if_necessary(actual, elem_ty);
             }
+            cast_if_unspecified_value(expr, ty_before);
         }
         (ExprEnum::Identifier(_), Type::Tuple(elem_tys)) => {
+            let ty_before = expr.ty.clone();
             if let Type::Tuple(actual_elem_tys) = &mut expr.ty {
                 for (actual, expected) in actual_elem_tys.iter_mut().zip(elem_tys) {
                     overwrite_ty_if_necessary(actual, expected);
                 }
             }
+            cast_if_unspecified_value(expr, ty_before);
         }
         (ExprEnum::Match(_, clauses), ty) => {
             for (_, body) in clauses {
@@ -2871,12 +2875,49 @@ pub(crate) fn constrain_type(expr: &mut TypedExpr, expected: &Type) -> Result<()
             constrain_type(then_expr, ty)?;
             constrain_type(else_expr, ty)?;
         }
-        (_, Type::Unsigned(ty)) => check_or_constrain_unsigned(expr, *ty)?,
-        (_, Type::Signed(ty)) => check_or_constrain_signed(expr, *ty)?,
+        (_, Type::Unsigned(ty)) => {
+            let ty_before = expr.ty.clone();
+            check_or_constrain_unsigned(expr, *ty)?;
+            cast_if_unspecified_value(expr, ty_before);
+        }
+        (_, Type::Signed(ty)) => {
+            let ty_before = expr.ty.clone();
+            check_or_constrain_signed(expr, *ty)?;
+            cast_if_unspecified_value(expr, ty_before);
+        }
         _ => {}
     }
     overwrite_ty_if_necessary(&mut expr.ty, expected);
     Ok(())
+}
+
+/// A number literal without a suffix takes on the type that is expected of it, but the value of
+/// any other expression of such an 'unspecified' number type (for example a variable bound to a
+/// literal by a `let` without type annotation) already has the width of an unspecified number
+/// and must be converted to the type that it was just constrained to.
+fn cast_if_unspecified_value(expr: &mut TypedExpr, ty_before: Type) {
+    fn contains_unspecified(ty: &Type) -> bool {
+        match ty {
+            Type::Unsigned(UnsignedNumType::Unspecified)
+            | Type::Signed(SignedNumType::Unspecified) => true,
+            Type::Array(elem, _) | Type::ArrayConst(elem, _) => contains_unspecified(elem),
+            Type::Tuple(fields) => fields.iter().any(contains_unspecified),
+            _ => false,
+        }
+    }
+    let was_unspecified = contains_unspecified(&ty_before);
+    let is_literal = matches!(
+        expr.inner,
+        ExprEnum::NumUnsigned(_, _) | ExprEnum::NumSigned(_, _)
+    );
+    if was_unspecified && !is_literal && expr.ty != ty_before {
+        let value = Expr {
+            inner: std::mem::replace(&mut expr.inner, ExprEnum::True),
+            meta: expr.meta,
+            ty: ty_before,
+        };
+        expr.inner = ExprEnum::Cast(expr.ty.clone(), Box::new(value));
+    }
 }
 
 pub(crate) fn check_type(expr: &mut TypedExpr, expected: &Type) -> Result<(), TypeErrors> {
